@@ -631,8 +631,9 @@ def refine_droplet(
         vmax = np.max(data_mask)
     vrng = vmax - vmin
 
-    if adjust_values:
-        # fit intensities in addition to all droplet parameters
+    if adjust_values and vrng > 0:
+        # fit intensities in addition to all droplet parameters (which requires that the
+        # image has some contrast; otherwise the intensities are kept fixed)
 
         # add vmin and vrng as separate fitting parameters
         parameters = np.r_[data_flat[free], vmin, vrng]
